@@ -874,3 +874,35 @@ def hour24_at_month_and_year_ends(yi: int, ei: int) -> bool:
         md, nxt = '03-31', '04-01'      # which BCE years are leap under XSD 1.0 numbering is not asserted here (leap_day_far_years covers XSD 1.1)
     r = L(T_CMP['h24'].evaluate(XPathContext(item=1, variables={'s': ys + '-' + md + 'T24:00:00'})))
     return r == [_h24_want(ys, md, nxt) + 'T00:00:00']
+
+
+_YM = '''
+@ob(budget=300, family='yearmonth-across-eras', bound='xs:date (XSD 1.1 class) with year in {rng} (internal numbering: -1 is the year 0000), month {mlo}..{mhi}, every valid '
+                      'day, yearMonthDuration of -600..600 months, {what}: the result is the month that many months away on the proleptic '
+                      'Gregorian timeline (no year is skipped or counted twice at 0000/0001 and at 9999/10000), the day clamped to the length of that month',
+    funcs=[D + ':AbstractDateTime._operation (YearMonthDuration)', H + ':adjust_day', D + ':AbstractDateTime.__init__'])
+def yearmonth_add_across_eras_{name}(year: int, month: int, day: int, months: int) -> bool:
+    \"\"\"
+    pre: {pre} and year != 0 and {mlo} <= month <= {mhi} and 1 <= day <= 31 and -600 <= months <= 600
+    post: _
+    \"\"\"
+    return _ym_across(year, month, day, months, {sub})
+'''
+
+
+def _ym_across(year, month, day, months, sub):
+    ay = _astro(year)
+    if day > _mlen(ay, month):
+        return True
+    d = Date(year, month, day)
+    r = d - YearMonthDuration(months=-months) if sub else d + YearMonthDuration(months=months)
+    tot = ay * 12 + month - 1 + months
+    ty, tm = tot // 12, tot % 12 + 1
+    return (r.year, r.month, r.day) == (ty if ty > 0 else ty - 1, tm, min(day, _mlen(ty, tm)))
+
+
+for _era, _rng, _pre in (('bce', '[-40, 40] without 0', '-40 <= year <= 40'), ('far', '[9960, 10040]', '9960 <= year <= 10040')):
+    for _sub in (False, True):
+        for _mlo, _mhi in ((1, 6), (7, 12)):
+            define(_YM.format(name=_era + ('_sub' if _sub else '_add') + '_m%d' % _mlo, rng=_rng, pre=_pre, sub=_sub, mlo=_mlo, mhi=_mhi,
+                              what='subtracted' if _sub else 'added'), globals())
